@@ -21,6 +21,7 @@ type worldVariant struct {
 	JWT     bool
 	Refresh string // "default" | "none" | "custom"
 	DB      bool
+	Hydrate bool
 	Short   bool
 }
 
@@ -30,7 +31,9 @@ func (v worldVariant) String() string {
 		s = "jwt"
 	}
 	s += " refresh-scopes=" + v.Refresh
-	if v.DB {
+	if v.DB && v.Hydrate {
+		s += " store=db(hydrating)"
+	} else if v.DB {
 		s += " store=db"
 	} else {
 		s += " store=reference"
@@ -42,11 +45,11 @@ func (v worldVariant) String() string {
 }
 
 func variant(i int) worldVariant {
-	return worldVariant{JWT: i%2 == 1, Refresh: []string{"default", "none", "custom"}[(i/2)%3], DB: (i/6)%3 == 2, Short: (i/18)%2 == 1}
+	return worldVariant{JWT: i%2 == 1, Refresh: []string{"default", "none", "custom"}[(i/2)%3], DB: (i/6)%3 == 2, Hydrate: (i/6)%3 == 2 && (i/18)%2 == 0, Short: (i/18)%2 == 1}
 }
 
 func (v worldVariant) build(extra func(*fosite.Config)) *world.World {
-	return world.New(world.Opts{JWTAccess: v.JWT, Mode: world.Mode{DB: v.DB}, Cfg: func(c *fosite.Config) {
+	return world.New(world.Opts{JWTAccess: v.JWT, Mode: world.Mode{DB: v.DB, Hydrate: v.Hydrate}, Cfg: func(c *fosite.Config) {
 		switch v.Refresh {
 		case "none":
 			c.RefreshTokenScopes = []string{}
